@@ -237,6 +237,12 @@ fn peer_of(fd: RawFd) -> Option<SocketAddrV4> {
     Some(SocketAddrV4::new(Ipv4Addr::from(u32::from_be(sa.sin_addr.s_addr)), u16::from_be(sa.sin_port)))
 }
 
+/// "socket:[inode]" of a descriptor of this process (None: closed or not a socket). Unlike the peer
+/// address this survives a reset of the connection and changes when the descriptor is reused.
+pub fn socket_identity(fd: RawFd) -> Option<String> {
+    std::fs::read_link(format!("/proc/self/fd/{}", fd)).ok().map(|p| p.to_string_lossy().to_string()).filter(|s| s.starts_with("socket:"))
+}
+
 fn sock_fds() -> Vec<RawFd> {
     let mut v = vec![];
     if let Ok(rd) = std::fs::read_dir("/proc/self/fd") {
@@ -283,6 +289,8 @@ impl Client {
         let src = Ipv4Addr::new(127, 0, (n / 250 % 250) as u8, (2 + n % 250) as u8);
         let sock = socket2_connect(src, port)?;
         sock.set_nodelay(true)?;
+        // no blocking write of the harness waits for ever on a server that stopped reading
+        let _ = sock.set_write_timeout(Some(Duration::from_secs(60)));
         let local = match sock.local_addr()? {
             SocketAddr::V4(a) => a,
             _ => unreachable!(),
@@ -443,6 +451,13 @@ impl Client {
                 Err(wire::ParseErr::Malformed(m)) => self.malformed = Some(m),
             }
         }
+    }
+
+    /// forget everything received and parsed so far (request/response round trips on one connection)
+    pub fn clear_received(&mut self) {
+        self.rbuf.drain(..self.parsed_upto);
+        self.parsed_upto = 0;
+        self.resps.clear();
     }
 
     pub fn unparsed(&self) -> usize {
